@@ -316,16 +316,18 @@ def r5_self_index(text, log, field="0", **kw):
 def tok_replace(text, log, rule="RX", frm=None, to=None, **kw):
     from .rustlex import lex
     want = [t[1] for t in lex(frm) if t[0] not in ("ws", "comment")]
-
-    def step(t):
-        s = Src(t)
-        for p in range(len(s) - len(want) + 1):
-            if s.seq(p, *want):
-                return _edit(t, s, p, p + len(want) - 1, to)
-        return None
-    if to is not None and [x[1] for x in lex(to) if x[0] not in ("ws", "comment")][:len(want)] == want:
-        raise Undecided("tok_replace would loop: %r -> %r" % (frm, to))
-    return _fix(text, step, log, rule)
+    s = Src(text)
+    hits, p = [], 0
+    while p <= len(s) - len(want):
+        if s.seq(p, *want):
+            hits.append(p)
+            p += len(want)
+        else:
+            p += 1
+    for p in reversed(hits):
+        text = text[:s.start(p)] + to + text[s.end(p + len(want) - 1):]
+        log.hit(rule)
+    return text
 
 
 # --- RS: replace one whole statement, found by its leading tokens, by a trusted stand-in (always listed) ----
@@ -390,7 +392,20 @@ def rf_format(text, log, **kw):
     return _fix(text, step, log, "RF")
 
 
+# --- RA: await erasure: `.await` is dropped, the future's body runs as a sequential call (interleavings at await
+# --- points are NOT modelled; listed as an assumption wherever it fires) ---------------------------------------
+def ra_await(text, log, **kw):
+    def step(t):
+        s = Src(t)
+        for p in range(len(s) - 1):
+            if s.txt(p) == "." and s.txt(p + 1) == "await" and not s.is_(p + 2, "("):
+                return _edit(t, s, p, p + 1, "")
+        return None
+    return _fix(text, step, log, "RA")
+
+
 RULES = {
+    "RA": ra_await,
     "R3e": r3_map_err,
     "RF": rf_format,
     "R12v": r12_valueref,
@@ -405,7 +420,7 @@ RULES = {
     "RX": tok_replace,
 }
 
-DEFAULT_ORDER = ["R6", "R10", "R12", "R4", "R3"]
+DEFAULT_ORDER = ["RA", "R6", "R10", "R12", "R4", "R3"]
 
 
 def apply_rules(body, extra=()):
